@@ -37,6 +37,7 @@ inductive Ev where
   | wd (nlri : Nat) (fam : Nat)
   | rrStart (fam : Nat)
   | rrEnd (fam : Nat)
+  | eor (fam : Nat)                -- End-of-RIB marker
 deriving DecidableEq, Repr
 
 /-- `OutgoingRIB` (enabled). -/
@@ -282,5 +283,33 @@ def applyEvs (t : Table) (evs : List Ev) : Table := evs.foldl applyEv t
 
 def Rib.cacheView (s : Rib) (n : Nat) : Option (Nat × Nat) :=
   (AList.lookup n s.cache).map (fun r => (r.attr, r.nh))
+
+/-! ### End-of-RIB: `Peer._send_eor_messages`, called in every main-loop iteration right after
+    `_send_route_updates` -/
+
+structure ESess where
+  core    : Sess
+  sendEor : Bool        -- `send_eor` of `_main` (true at session start unless manual-eor)
+deriving Repr
+
+inductive EOp where
+  | op (o : Op)
+  | eor                 -- one call of `_send_eor_messages`
+deriving Repr
+
+def ESess.step (s : ESess) : EOp → ESess × List Ev
+  | .op (.established p n) => ({ core := (s.core.step (.established p n)).1, sendEor := true }, [])
+  | .op o => ({ s with core := (s.core.step o).1 }, (s.core.step o).2)
+  | .eor =>
+    if s.core.inflight.isNone && s.sendEor then
+      ({ s with sendEor := false }, s.core.rib.families.map Ev.eor)
+    else (s, [])
+
+def ESess.run (s : ESess) : List EOp → ESess × List Ev
+  | [] => (s, [])
+  | o :: os =>
+    let (s1, o1) := s.step o
+    let (s2, o2) := s1.run os
+    (s2, o1 ++ o2)
 
 end Exa.Rib
